@@ -248,8 +248,9 @@ val run : nat -> st -> action list -> st option
 
 val monitors_ok : st -> bool
 
-type aux = { ren : (z * nat) list; sob : (z * nat) list; pact : z;
-             pkind : nat; cact : z; ccall : nat; nitems : nat }
+type aux = { ren : (z * nat) list; sob : (z * nat) list;
+             fob : (z * nat) list; pact : z; pkind : nat; cact : z;
+             ccall : nat; nitems : nat }
 
 type ast = st * aux
 
@@ -279,6 +280,8 @@ val set_pact : aux -> z -> nat -> aux
 
 val set_call : aux -> z -> nat -> aux
 
+val set_fob : aux -> (z * nat) list -> aux
+
 val set_items : aux -> nat -> aux
 
 val fin :
@@ -295,6 +298,10 @@ val ptr_ev :
 val load_acts : nat -> st -> action list
 
 val reads_done : st -> bool
+
+val field_of : st -> z -> nat option
+
+val accept_core : nat -> ast -> z list -> ast option
 
 val accept_ev : nat -> ast -> z list -> ast option
 
